@@ -250,7 +250,8 @@ Definition all_ids (st : state) : list N := flat_map ids_slot (roots st).
 (* sym_clone: every symbolic container below gets a fresh id, parent and path of the copy are those of a
    tree of its own (rooted at [p] below [pa]); flags are copied per node.  Non-symbolic leaves are shared
    (shallow) or copied once per object (deep: one memo for the whole call, as copy.deepcopy).
-   Building a pg.List from items drops MISSING_VALUE items (appending MISSING is a no-op).              *)
+   [dm] (open finding C07/not-equal/.../list-holds-MISSING): building a pg.List from items drops MISSING_VALUE
+   items (appending MISSING is a no-op), so the copy of a list that holds MISSING_VALUE loses it.          *)
 Definition memo : Type := list (N * N).
 Fixpoint memo_get (m : memo) (o : N) : option N :=
   match m with [] => None | (a, b) :: r => if N.eqb a o then Some b else memo_get r o end.
@@ -266,9 +267,7 @@ Definition clone_leaf (deep : bool) (l : leaf) (cs : cstate) : leaf * cstate :=
       else (l, cs)
   | _ => (l, cs)
   end.
-Definition drop_missing (k : kind) (its : list (key * node)) : list (key * node) :=
-  match k with KList => rekey_from 0 (filter (fun kv => negb (is_missing (snd kv))) its) | _ => its end.
-Fixpoint clone_at (deep : bool) (pa : option N) (p : list key) (n : node) (cs : cstate) : node * cstate :=
+Fixpoint clone_at (dm deep : bool) (pa : option N) (p : list key) (n : node) (cs : cstate) : node * cstate :=
   match n with
   | Leaf l => let '(l', cs') := clone_leaf deep l cs in (Leaf l', cs')
   | Node _ k _ _ fl its =>
@@ -278,10 +277,10 @@ Fixpoint clone_at (deep : bool) (pa : option N) (p : list key) (n : node) (cs : 
            match l with
            | [] => ([], cs)
            | (kk, c) :: r =>
-               if (match k with KList => is_missing c | _ => false end) then go r i cs
+               if dm && (match k with KList => is_missing c | _ => false end) then go r i cs
                else
                  let kk' := match k with KList => KI i | _ => kk end in
-                 let '(c', cs1) := clone_at deep (Some me) (p ++ [kk']) c cs in
+                 let '(c', cs1) := clone_at dm deep (Some me) (p ++ [kk']) c cs in
                  let '(r', cs2) := go r (i + 1) cs1 in
                  ((kk', c') :: r', cs2)
            end) its 0 (N.succ me, snd cs) in
